@@ -1062,7 +1062,10 @@ async fn run_workload(env: &Env, w: &Workload, ctx: &mut Ctx<'_>, quiescent_chec
                     let log = env.fault.mutation_log();
                     let shape: Vec<Value> = log[log0..].iter().map(|(o, path)| tup(vec![ctor(match o { FaultOp::Put => "LPut", FaultOp::Delete => "LDel", FaultOp::Copy => "LCopy", FaultOp::Rename => "LRename", _ => "LOther" }, vec![]), ctor(&format!("C{}", classify(path)), vec![])])).collect();
                     let kind = if let Exec::Rejected(_) = r { format!("{}_rejected", op.kind()) } else { op.kind().to_string() };
-                    ctx.out.log_shapes.insert(json!({"kind": "log", "case": tup(vec![json!(kind), Value::Array(shape)])}).to_string());
+                    // an update/remove generated for an empty collection is skipped by exec_op (no call is made): it has
+                    // no backend log and is not an instance of that operation's protocol
+                    let skipped = shape.is_empty() && matches!(op, Op::Remove(_) | Op::RemoveLast | Op::Update(..));
+                    if !skipped { ctx.out.log_shapes.insert(json!({"kind": "log", "case": tup(vec![json!(kind), Value::Array(shape)])}).to_string()); }
                 }
                 if quiescent_checks && let Some(s) = &sess {
                     let d = dump(&s.coll, &p.ixs, &p).await;
